@@ -5,6 +5,7 @@ CONSTANTS
   Cap = 1000
   Retention = 0
   MinDelay = 0
+  MaxEpoch = 6
 INIT Init
 NEXT Next
 CHECK_DEADLOCK FALSE
